@@ -168,6 +168,29 @@ func execOp(rig *Rig, o Op) Outcome {
 		if cerr != nil {
 			return failOut("close", cerr)
 		}
+	case "latewrite":
+		// a handle is opened and left idle; another handle rewrites the file and closes; then the first handle writes and closes
+		h, err := f.OpenFile(o.A, o.Flag, os.FileMode(o.Perm))
+		if err != nil {
+			return failOut("open", err)
+		}
+		other := genContent(o.N, "text", o.DSeed^0x5151)
+		if err := afero.WriteFile(f, o.A, other, 0o644); err != nil {
+			_ = h.Close()
+			return failOut("otherwrite", err)
+		}
+		c := o.content()
+		n, werr := h.Write(c)
+		if werr == nil && n != len(c) {
+			werr = fmt.Errorf("short write %d of %d", n, len(c))
+		}
+		cerr := h.Close()
+		if werr != nil {
+			return failOut("write", werr)
+		}
+		if cerr != nil {
+			return failOut("close", cerr)
+		}
 	case "read":
 		b, err := ReadAllFile(f, o.A)
 		if err != nil {
@@ -354,6 +377,23 @@ func applyModel(m *Model, o Op) (MOut, Outcome) {
 			if r := h.DoWrite(o.content()); !r.OK {
 				return fail("write refused"), Outcome{}
 			}
+		}
+		return ok(), Outcome{}
+	case "latewrite":
+		mo, n := m.Open(o.A, o.Flag, o.Perm)
+		if !mo.OK || mo.Amb {
+			return mo, Outcome{}
+		}
+		h := NewMHandle(n, o.Flag)
+		if mo2, _ := m.Open(o.A, os.O_WRONLY|os.O_CREATE|os.O_TRUNC, 0o644); !mo2.OK {
+			return mo2, Outcome{}
+		}
+		oh := NewMHandle(n, os.O_WRONLY)
+		if r := oh.DoWrite(genContent(o.N, "text", o.DSeed^0x5151)); !r.OK {
+			return fail("write refused"), Outcome{}
+		}
+		if r := h.DoWrite(o.content()); !r.OK {
+			return fail("write refused"), Outcome{}
 		}
 		return ok(), Outcome{}
 	case "hcreate":
